@@ -162,7 +162,8 @@ DayPartitionC(K, begin, d) ==
        roSign    |-> LeTol(Z, d.runoff, Tol9),
        roCap     |-> LeTol(d.runoff, Add(supply, begin.pond), Tol6),
        negInfl   |-> IsNeg(d.infl) /\ ~Near(d.infl, Z, Tol9) =>
-                        (~d.bundsToday /\ IsPos(begin.pond) /\ LeTol(Neg(d.infl), begin.pond, Tol6)),
+                        \* bunds removed today, or lowered below the water standing behind them
+                        ((~d.bundsToday \/ Lt(d.zBund, begin.pond)) /\ IsPos(begin.pond) /\ LeTol(Neg(d.infl), begin.pond, Tol6)),
        nothing   |-> (IsZero(d.P) /\ IsZero(IF d.gs THEN d.irrEff ELSE Z) /\ IsZero(begin.pond)) =>
                         (Near(d.infl, Z, Tol9) /\ Near(d.runoff, Z, Tol9)) ]
 
